@@ -10,11 +10,12 @@ Next == \/ i = 0 /\ i' \in {-b : b \in 1..NB}
         \/ i < 0 /\ i' \in (((-i) - 1) * BSize + 1)..(IF (-i) * BSize < N THEN (-i) * BSize ELSE N)
 Spec == Init /\ [][Next]_i
 StEq(a, b) == a.n = b.n /\ a.xs = b.xs /\ a.nested = b.nested /\ a.dl = b.dl /\ a.s = b.s /\ a.child = b.child
-              /\ a.tmp = b.tmp /\ a.ro = b.ro /\ a.kids = b.kids
+              /\ a.tmp = b.tmp /\ a.ro = b.ro /\ a.kids = b.kids /\ a.hasx = b.hasx /\ a.xval = b.xval
 Clauses(c) ==
   IF c.op = "copy"
   THEN (IF c.exc # "" THEN {"C14-copy-raised"} ELSE
         (IF StEq(c.post, Copied(c.pre)) THEN {} ELSE
+           IF KF22Guard(c.pre) /\ StEq(c.post, Copied_KF22(c.pre)) THEN {"KF22"} ELSE
            IF StEq([c.post EXCEPT !.tmp = 0], Copied(c.pre)) THEN {"C14-transient-not-at-default"} ELSE {"C14-copy-state-differs"})
         \cup (IF c.sameclass = 1 THEN {} ELSE {"C14-copy-of-other-class"})
         \cup (IF c.shared = 0 THEN {} ELSE {"C14-copy-shares-mutable-container"})
